@@ -644,6 +644,9 @@ class EmptyCriterion(Criterion):
     def __invert__(self) -> Any:
         return self
 
+    def negate(self) -> Any:
+        return self
+
 
 class Field(Criterion, JSON):
     def __init__(
